@@ -1,6 +1,6 @@
 (* C08 -- A logged-on session never stays silent longer than the heartbeat interval. *)
 From Coq Require Import ZArith List.
-From SF Require Import Timer Timer_proofs.
+From SF Require Import Timer Timer_proofs Timer_loop.
 Open Scope Z_scope.
 
 (* The outbound timer (timeout T = N seconds, polled every T/10) is refreshed by every outbound
@@ -13,7 +13,6 @@ Theorem C08_never_silent_longer :
     0 <= T -> 0 < G ->
     dense G from (r + T + G) ticks -> from <= r + T -> start <= from ->
     (forall t, r <= t -> t <= r + T + G -> last_refresh start refs t = r) ->
-    (forall t, t < r -> last_refresh start refs t <= t) ->
     exists t, take_timeout T start refs ticks = Some t /\ t <= r + T + G.
 Proof. exact returns_in_time. Qed.
 Print Assumptions C08_never_silent_longer.
@@ -28,3 +27,55 @@ Theorem C08_not_sooner :
     /\ forall r, In r refs -> r <= t -> r + T <= t.
 Proof. exact no_early_return. Qed.
 Print Assumptions C08_not_sooner.
+
+(* ---- many consecutive periods ----
+   The loop: wait, send a Heartbeat when the wait returns, wait again (sending and re-entering the
+   wait restart the clock).  [loop T fuel start refs ticks] lists the instants at which it sends. *)
+
+(* never silent longer: with ticks at most G apart (polling period + tick delay) from the entry of
+   the loop up to a horizon H and outbound messages (refs) at arbitrary instants, every stretch of
+   T + G before the horizon contains an outbound message or a Heartbeat of the loop *)
+Theorem C08_never_silent_many_periods :
+  forall T G, 0 <= T -> 0 < G ->
+  forall fuel start refs ticks H,
+    (length ticks <= fuel)%nat ->
+    dense G start H ticks ->
+    forall x, start <= x -> x + T + G <= H ->
+      exists e, (In e refs \/ In e (loop T fuel start refs ticks)) /\ x < e <= x + T + G.
+Proof. exact loop_never_silent. Qed.
+Print Assumptions C08_never_silent_many_periods.
+
+(* not sooner: every Heartbeat of the loop comes at least T after the previous one and at least T
+   after every outbound message that precedes it, however many periods pass *)
+Theorem C08_not_sooner_many_periods :
+  forall T fuel start refs ticks,
+    spaced T start (loop T fuel start refs ticks)
+    /\ forall h, In h (loop T fuel start refs ticks) -> forall r, In r refs -> r <= h -> r + T <= h.
+Proof. exact loop_never_early. Qed.
+Print Assumptions C08_not_sooner_many_periods.
+
+(* the statements are not vacuous: three periods with one application message in the second *)
+Theorem C08_loop_nonvacuous :
+  loop 100 5 0 (130 :: nil) (10::20::30::40::50::60::70::80::90::100::110::120::130::140::150::160::170::180::190::200::210::220::230::240::250::260::270::280::290::300::310::320::330::340::nil)
+  = (100 :: 230 :: 330 :: nil)
+  /\ dense 10 0 340 (10::20::30::40::50::60::70::80::90::100::110::120::130::140::150::160::170::180::190::200::210::220::230::240::250::260::270::280::290::300::310::320::330::340::nil).
+Proof. exact loop_example. Qed.
+Print Assumptions C08_loop_nonvacuous.
+
+(* what the harness's TICK lines are judged against is a run of this model: polled exactly every P
+   from the entry of the wait, the wait returns at the first tick at or after (latest refresh + T),
+   and with zero tolerance tick_conforms says exactly that *)
+Theorem C08_exact_ticks_run :
+  forall T P start refs L n,
+    0 < P -> 0 <= T -> start <= L ->
+    (forall t, L <= t -> last_refresh start refs t = L) ->
+    (forall t, In t (exact_ticks P start n) -> t < L -> t < last_refresh start refs t + T) ->
+    ideal_tick P start (L + T) <= start + Z.of_nat n * P ->
+    take_timeout T start refs (exact_ticks P start n) = Some (ideal_tick P start (L + T)).
+Proof. exact take_timeout_ideal. Qed.
+Print Assumptions C08_exact_ticks_run.
+Theorem C08_tick_judgement_exact :
+  forall T start last ret, 0 < period T ->
+    (tick_conforms T 0 0 start last ret = true <-> ret = ideal_tick (period T) start (last + T)).
+Proof. exact tick_conforms_exact. Qed.
+Print Assumptions C08_tick_judgement_exact.
